@@ -149,6 +149,32 @@ def run(ctx):
                 if not np.max(np.abs(one - 1.0)) <= 1e-12:
                     ctx.violation({"kind": "constants-not-preserved", "path": sp.kind}, "a constant field changes by %g" % float(np.max(np.abs(one - 1.0))),
                                   {"space": sp.key(), "nz": nz, "iota": iota})
+    # whole-cell displacements on a NON-dyadic z step (dz = 0.1, 0.3, 1/7: the quotient displacement / dz is then not the exact integer
+    # in floating point): without twist the step must still be the circular shift, up to rounding - whichever way the code rounds the foot
+    nshift = 0
+    for sp in spaces[:2]:
+        for dz in (0.1, 0.3, 1.0 / 7.0):
+            nz = 9
+            L = fa.Lines(sp, nz, rng)
+            for dt in (1.0, -0.5):
+                ks = [k for k in (-11, -4, -3, -1, 1, 2, 3, 7, 10)]
+                vs = np.array(sorted(-k * dz / dt for k in ks))          # displacement -v*dt = k*dz exactly in real arithmetic
+                eta = [np.array([0.5, 2.0]), L.theta, np.arange(nz, dtype=float) * dz, vs]
+                c = fa.consts(0.0, 1.0)
+                op = FluxSurfaceAdvection(eta, [L.basis, None], Layout("flux_surface", [1], [0, 3, 1, 2], eta, [0]), dt, c)
+                for vi in range(len(vs)):
+                    k = int(round(-vs[vi] * dt / dz))
+                    f = L.f.copy()
+                    op.step(f, vi, 1)
+                    shifted = np.roll(L.f, -k, axis=1)
+                    nshift += 1
+                    ctx.count((sp.key(), "non-dyadic dz", dz, dt, vi))
+                    dev = float(np.max(np.abs(f - shifted))) if np.all(np.isfinite(f)) else float("inf")
+                    if not dev <= 1e-9:
+                        ctx.violation({"kind": "not-an-exact-shift", "path": sp.kind, "non_dyadic_dz": True},
+                                      "displacement of %d whole cells (dz=%r, v=%r, dt=%r) without twist is not a circular shift (dev %g)" % (
+                                          k, dz, float(vs[vi]), dt, dev), {"space": sp.key(), "nz": nz, "dz": dz, "v": float(vs[vi]), "dt": dt})
+    ctx.extra["whole_cell_shifts_on_non_dyadic_steps"] = nshift
     ctx.extra["cases"] = ncase
     ctx.extra["max_abs_deviation"] = worst
     ctx.traces = ncase
